@@ -11,6 +11,7 @@ import (
 	"go/types"
 	"os"
 	"sort"
+	"strconv"
 	"strings"
 
 	"golang.org/x/tools/go/callgraph"
@@ -54,7 +55,7 @@ type World struct {
 	factMemo   map[*ssa.Function]*funcFacts
 	dead       map[edgeKey]bool
 	keyDepth   int
-	intConsts map[string]*ssa.Const
+	intConsts  map[string]*ssa.Const
 	fwdBusy    bool
 	liveMemo   map[*ssa.Function]map[*ssa.BasicBlock]bool
 	li         *lockInfo
@@ -480,6 +481,13 @@ func isBasicZeroable(t types.Type) bool {
 }
 
 func constInt(v ssa.Value) (int64, bool) {
+	if vv, isV := v.(*virtVal); isV && strings.HasPrefix(vv.k, "const:") {
+		// a helper's value that stands for a constant of the caller
+		if n, err := strconv.ParseInt(strings.TrimPrefix(vv.k, "const:"), 10, 64); err == nil && isIntType(vv.t) {
+			return n, true
+		}
+		return 0, false
+	}
 	c, ok := v.(*ssa.Const)
 	if !ok || c.Value == nil {
 		return 0, false
